@@ -79,6 +79,36 @@ def msmInverseVariance [Add α] [Sub α] [Mul α] [Div α] (ofNat : Nat → α) 
   let v := ensMean ofNat zero (ms.map (fun m => (rm.zipWith (· - ·) m).map (fun d => d * d))) rm.length
   (((rm.zipWith (· - ·) sm).zipWith (fun g vi => g * g / vi) v)).foldl (· + ·) zero
 
+/-- Fourier loss before the square root: `Σ_k |mean_e F(sim_e)_k − F(real)_k|² / K`.  `spec` is the transform `F` =
+`np.fft.rfft` followed by the frequency filter, with the complex bins flattened to their real and imaginary parts
+(`|z|² = re² + im²`), `bins = K` the number of rfft bins (`ts_length` in the code).  Structurally this is the
+identity-weighted moment distance with `spec` in the place of the moment calculator, normalised by `K`. -/
+def fourierSq [Add α] [Sub α] [Mul α] [Div α] (ofNat : Nat → α) (zero : α) (spec : List α → List α) (bins : Nat)
+    (members : List (List α)) (real : List α) : α :=
+  msmIdentity ofNat zero spec members real / ofNat bins
+
+/-- `FourierLoss.compute_loss_1d` -/
+def fourierLoss [Add α] [Sub α] [Mul α] [Div α] (ofNat : Nat → α) (zero : α) (sqrt : α → α) (spec : List α → List α)
+    (bins : Nat) (members : List (List α)) (real : List α) : α :=
+  sqrt (fourierSq ofNat zero spec bins members real)
+
+/-- kernel-likelihood loss (`LikelihoodLoss.compute_loss`): `sim` is indexed `[member][time][coordinate]`, `real`
+`[time][coordinate]`; `kern` is the Gaussian kernel as a function of the mean squared distance over coordinates.
+`−(1/R) Σ_r Σ_t log( (1/S) Σ_s kern( (1/D) Σ_d (sim[r][s][d] − real[t][d])² ) )`; first the mean squared distance
+over coordinates: -/
+def sqDist [Add α] [Sub α] [Mul α] [Div α] (ofNat : Nat → α) (zero : α) (dims : Nat) (x y : List α) : α :=
+  ((x.zipWith (fun a b => (a - b) * (a - b)) y).foldl (· + ·) zero) / ofNat dims
+
+/-- log-likelihood of the real series under the kernel density of one simulated member -/
+def logLikMember [Add α] [Sub α] [Mul α] [Div α] (ofNat : Nat → α) (zero : α) (kern log : α → α) (dims : Nat)
+    (real : List (List α)) (m : List (List α)) : α :=
+  (real.map (fun y => log (((m.map (fun x => kern (sqDist ofNat zero dims x y))).foldl (· + ·) zero) / ofNat m.length))).foldl
+    (· + ·) zero
+
+def likelihood [Add α] [Sub α] [Mul α] [Div α] [Neg α] (ofNat : Nat → α) (zero : α) (kern log : α → α) (dims : Nat)
+    (sim : List (List (List α))) (real : List (List α)) : α :=
+  Neg.neg (((sim.map (logLikMember ofNat zero kern log dims real)).foldl (· + ·) zero) / ofNat sim.length)
+
 /-- GSL-div weight schedule: the running sum `Σ_{l≤L} 2l/(L(L+1))` the loss accumulates -/
 def gslWeights [Div α] [Mul α] (ofNat : Nat → α) (maxLen : Nat) : List α :=
   (List.range maxLen).map (fun i => ofNat 2 * ofNat (i + 1) / (ofNat maxLen * ofNat (maxLen + 1)))
